@@ -44,16 +44,30 @@ Proof. exact quoted_step_pair. Qed.
 Print Assumptions C17_pairs.
 
 (* serializeJson's string writer followed by deserializeJson's string reader is the identity on
-   EVERY byte string (so in particular on all 256 bytes and all 65 536 pairs) *)
+   EVERY byte string that fits a StringNode (at most 65535 bytes; so in particular on all 256
+   bytes and all 65 536 pairs) *)
 Theorem C17_roundtrip : forall cf str tail fuel s,
   decode_unicode cf = true ->
   Forall (fun b => b < 256) str ->
+  N.of_nat (length str) <= 65535 ->
   good s -> stream s = write_string str ++ tail ->
   (length str < fuel)%nat ->
   exists s', parse_quoted_string cf fuel s = (Ok, str, s') /\
              good s' /\ stream s' = tail /\ cur s' = None /\ found s' = found s.
 Proof. exact write_then_parse_string. Qed.
 Print Assumptions C17_roundtrip.
+
+(* the bound is needed: a longer string is read to its closing quote and refused with NoMemory *)
+Theorem C17_roundtrip_too_long : forall cf str tail fuel s,
+  decode_unicode cf = true ->
+  Forall (fun b => b < 256) str ->
+  65535 < N.of_nat (length str) ->
+  good s -> stream s = write_string str ++ tail ->
+  (length str < fuel)%nat ->
+  exists s', parse_quoted_string cf fuel s = (NoMemory, [], s') /\
+             good s' /\ stream s' = tail /\ cur s' = None /\ found s' = found s.
+Proof. exact write_then_parse_long_string. Qed.
+Print Assumptions C17_roundtrip_too_long.
 
 (* the writer changes no byte other than the quote, the backslash, \b \f \n \r \t and NUL *)
 Theorem C17_only_named : forall c, c < 256 -> named c = false -> write_char c = [c].
